@@ -18,6 +18,12 @@ CLAIMS = {
  "C04": ("layout independence of selection proved as corollaries of the refinement theorems (any two chunks with equal rows); correspondence: metamorphic — one content in ≥6 layouts × ~45 public operations (array, accessor, frame), results must be equal or all fail", "§7 C04"),
  "C05": ("chunk-level refinement of slice and take to list operations proved for all chunks, windows and index lists; correspondence: getitem/take/setitem/concat/dropna/pickle/copy/equals vs model and vs Python list semantics, frame row movement, in-place histories, exhaustive slices (thorough)", "§7 C05"),
  "C06": ("frame condition of set_list_field/set_flat_field/fill_field_lists proved for every column, field and value: same chunks, same validity (missing rows, row count), every other field the identical list array, edited field = window of the supplied lists; correspondence: accessor and NestedFrame['n.f']= over layouts × value forms", "§7 C06"),
+ "C07": ("filter-and-repack pipeline of query proved for every number of rows, row lengths and condition outcomes (query_filters_inside_rows: packed rows = non-empty filtered rows in order, packed index = rows keeping a record, row i keeps exactly its satisfying records in order; same offsets for every field; mixed layers refused); correspondence: expressions from the grammar (comparisons, arithmetic, and/or/not, quoted names) x layouts x label patterns vs model and per-row spec, base-layer queries vs pandas, query_flat", "§7 C07"),
+ "C09": ("pack groups by label keeping original relative order (stable sort + packer proved end to end for int/str labels: packed_row_holds_records_of_label, distinct packed labels, absent labels), join lookup refines take; correspondence: add_nested x {left,right,inner,outer} x label patterns vs model (pandas join) and per-row spec, on=column, from_flat, from_lists/nest_lists, frame['new.f']=", "§7 C09"),
+ "C10": ("reduce hands row i its own list (iter_field_list_is_rows_own_list, any offsets/buffers), one call per row with every requested column (reduce_calls_shape); correspondence: recording callback x column selections x extra args x return shapes, count_nested", "§7 C10"),
+ "C11": ("records stay in their rows and move as a whole for ANY comparator (sort_keeps_records_in_rows via mergeSort_perm), sorted ordinals are non-decreasing and a table sorted by ordinal packs row by row into its own records (sorted_table_packs_by_ordinal), positions ordered by the comparator; correspondence: model (stable lexsort, NaN above numbers) vs code, relation oracle in Lean (per-row permutation + sortedness)", "§7 C11"),
+ "C12": ("same filter-and-repack theorem with the completeness mask; how=any/all/thresh decision lemmas; target resolution decision table (mixed/conflicting refused, on_nested/subset aims); correspondence: how x thresh x subset x on_nested x inplace vs model and per-row spec, base-layer dropna vs oracle, refusals", "§7 C12"),
+ "C13": ("eval is elementwise on the flat view by construction of the model (eval_is_elementwise, validated per expression), assignment to a field of an existing nest satisfies the frame condition (eval_assign_frame_condition + replaced_column_frame_condition); correspondence: arithmetic/conditions vs model and spec, assignments to existing/new field/new nest, inplace or not, multi-line programs", "§7 C13"),
  "C19": ("same records per row in both orientations proved for validated chunks whose fields are slices of different buffers (rebased_window_same_extents, list_struct_same_records); correspondence: every export/import door and explicit type requests on all layouts", "§7 C19"),
 }
 TECH = "Lean 4 proof (refinement/invariant theorems over an executable model) + differential correspondence check model-vs-code with spec oracle"
